@@ -118,9 +118,14 @@ class Prop:
             ctx.count('class:' + cname)
             if o.startswith('ERR'):
                 continue          # not encodable with these (decoded) values: outside C09 (C08 covers stability)
-            sents = [bytes.fromhex(x) for x in o.split(',')]
-            payload = b''.join(s.split(b',')[5] for s in sents)
-            fill = int(sents[-1].split(b',')[6][:1])
+            try:
+                sents = [bytes.fromhex(x) for x in o.split(',') if x]
+                payload = b''.join(s.split(b',')[5] for s in sents)
+                fill = int(sents[-1].split(b',')[6][:1])
+            except (IndexError, ValueError):
+                ctx.fail('the encoder returned no sentences or sentences without the seven NMEA fields', inp,
+                         'one to three !AIVDx sentences', o[:200], {'kind': 'wellformed-msg', 'class': cname})
+                continue
             if check_sentences(ctx, inp, sents, talker, payload, fill, {'kind': 'wellformed-msg', 'class': cname}):
                 if len(sents) > 3:
                     ctx.fail('an encodable message needs more than three fragments', inp, '<= 3', len(sents),
@@ -137,7 +142,7 @@ class Prop:
             sents = [bytes.fromhex(x) for x in o.split(',')] if not o.startswith('ERR') and o != '-' else []
             check_sentences(ctx, inp, sents, talker, p, inp['fill'], {})
         else:
-            print('re-run:', inp)
+            return None          # regenerated from the recorded seed by the generic replay
         return not ctx.failures
 
 
